@@ -99,7 +99,9 @@ class NetworkXGraphStorageDisjoint:
             # check this graph_id isn't already present
             self.lock.acquire()
             try:
-                if graph_id in self.graphs.keys():
+                # self.graphs is a defaultdict: a deleted (or merely looked up) graph id leaves an
+                # empty entry behind, which does not count as a graph being present
+                if graph_id in self.graphs.keys() and len(self.graphs[graph_id].nodes) > 0:
                     # graph already present, warn and exit
                     if self.log is not None:
                         self.log.warn('Attempting to insert a graph with the same GraphID, skipping')
